@@ -17,7 +17,7 @@ from pysym.harness import Check, Recorder
 
 from bibtexparser.model import Entry, Field, String, Preamble, ExplicitComment, ImplicitComment
 
-KS = "aAb"
+KS = "aAbD"      # "D": a one-letter key that is a substring of the reserved name ID
 OPS = ("set_field", "setitem", "pop", "popd", "del", "get", "getd", "in", "getitem")
 
 
@@ -176,6 +176,9 @@ def drv_eq(ka, sa, na, kb, sb, nb, meta_b, read_b=False):
     b = make(kb, sb, nb)
     if meta_b and not isinstance(b, Field):
         b.parser_metadata["m"] = sb[0]
+    if meta_b == "both" and not isinstance(a, Field):
+        # both operands carry (equal or different) metadata: copies must carry it too
+        a.parser_metadata["m"] = sa[0]
     if read_b:
         observe(b)
     c = copy.copy(a)
@@ -197,7 +200,7 @@ def replay_eq(ka, sa, na, kb, sb, nb, meta_b, read_b=False):
         r = drv_eq(ka, sa, na, kb, sb, nb, meta_b, read_b)
     except Exception as ex:  # noqa
         return {"input": [ka, sa, na, kb, sb, nb, meta_b, read_b], "observed": f"raised {type(ex).__name__}: {ex}", "expected": "booleans"}
-    exp = (same_class(ka, kb) and ka == kb and all(sa[i] == sb[i] for i in USED[ka]) and na == nb and not (meta_b and ka != "Field"))
+    exp = (same_class(ka, kb) and ka == kb and all(sa[i] == sb[i] for i in USED[ka]) and na == nb and not (meta_b is True and ka != "Field"))
     if r[0] == exp and r[1] == exp and r[2] and r[3] and r[4] and r[5] and r[6] == (not exp):
         return None
     return {"input": [ka, sa, na, kb, sb, nb, meta_b, read_b], "observed": list(r), "expected": f"a==b is {exp}; copies equal"}
@@ -211,7 +214,7 @@ def task_eq(ka, kb, meta_b, read_b=False):
     na, nb = eng.sym_int("na", 0, 1), eng.sym_int("nb", 0, 1)
     E = eng.I.models.eq_simple
     worlds = eng.run(drv_eq, [ka, sa, na, kb, sb, nb, meta_b, read_b])
-    if same_class(ka, kb) and ka == kb and not (meta_b and ka != "Field"):
+    if same_class(ka, kb) and ka == kb and not (meta_b is True and ka != "Field"):
         exp = b_all([E(sa[i], sb[i]) for i in USED[ka]] + [i_cmp("==", na, nb)])
     else:
         exp = False
@@ -239,7 +242,7 @@ def main():
     chk = Check("C19", __doc__)
     depth = 2 if chk.tier == "quick" else 3
     chk.bounds = {"mapping": f"pre-state of 0..3 fields with distinct 1-char keys over {KS!r}; every sequence of 1..{depth} operations from {OPS} with symbolic key arguments",
-                  "equality": "all ordered pairs of kinds from Field/String/Preamble/ExplicitComment/ImplicitComment/Entry(1 field)/Entry(2 fields); every string attribute a symbolic char over {x,y}; start lines symbolic 0..1; with and without extra metadata; with and without read-only use of one operand (start_line, raw, parser_metadata, get_parser_metadata, fields_dict, get, in, items) before the comparison"}
+                  "equality": "all ordered pairs of kinds from Field/String/Preamble/ExplicitComment/ImplicitComment/Entry(1 field)/Entry(2 fields); every string attribute a symbolic char over {x,y}; start lines symbolic 0..1; with and without extra metadata on one or on both operands; with and without read-only use of one operand (start_line, raw, parser_metadata, get_parser_metadata, fields_dict, get, in, items) before the comparison"}
     chk.assumptions = ["field keys are distinct and not ENTRYTYPE/ID (statement)", "deleting an absent key is excluded (the statement does not fix whether a silent no-op is a 'result')",
                        "longer keys / deeper histories are outside the claim; the oracle dictionary is the engine's model of dict (keys compared by symbolic string equality, insertion order kept)"]
     chk.expected_vacuity = ["mapping-run", "equal-pair", "unequal-pair"]
@@ -258,6 +261,8 @@ def main():
                 chk.add_task(f"eq-{ka}-{kb}-m{int(meta)}", task_eq, ka=ka, kb=kb, meta_b=meta)
                 if ka == kb:
                     chk.add_task(f"eq-{ka}-{kb}-m{int(meta)}-read", task_eq, ka=ka, kb=kb, meta_b=meta, read_b=True)
+                    if meta and ka != "Field":
+                        chk.add_task(f"eq-{ka}-{kb}-mboth", task_eq, ka=ka, kb=kb, meta_b="both")
     chk.run()
 
 
